@@ -24,7 +24,8 @@ def game_values(shape):
     for i, n in enumerate(shape):
         row = []
         for j in range(n):
-            row.append((20.0 + 3.7 * i + 1.3 * j + 0.61 * c, 3.0 + 0.9 * ((c * 7) % 5) + 0.13 * i, f"p{i}_{j}"))
+            # deliberately NOT monotone inside a team (neither in mu nor in sigma): a result that comes back sorted is a mismatch
+            row.append((20.0 + 3.7 * i + 1.3 * ((2 * j + 1) % 3) - 0.61 * c + 2.9 * (c % 2), 3.0 + 0.9 * ((c * 7 + 3) % 5) + 0.13 * i, f"p{i}_{j}"))
             c += 1
         vals.append(row)
     return vals
